@@ -38,8 +38,9 @@ TVStep == /\ l <= Len(Rec) /\ Rec[l].ev = "step"
              /\ viol' = IF dead /\ e.op # "write" THEN viol
                         ELSE AddViol(viol,
                                CASE e.op = "set_log_base" ->
-                                      LET v == LogVerdict(table, Small(e.letter.size)) IN
-                                      IF (v = "must_ok") # ok THEN {"C15/set-log-base/" \o v \o "/got=" \o e.status} ELSE {}
+                                      LET v == LogVerdictAt(table, Small(e.letter.size), Small(e.letter.off)) IN
+                                      IF (v = "must_ok" /\ ~ok) \/ (v = "must_fail" /\ ok)
+                                      THEN {"C15/set-log-base/" \o v \o "/got=" \o e.status \o (IF Small(e.letter.off) % 4096 # 0 THEN "/window-not-page-aligned" ELSE "")} ELSE {}
                                  [] e.op = "write" -> WriteViol(e)
                                  [] e.op = "use_ring" -> RingViol(e)
                                  [] OTHER -> IF e.workers_ok THEN {} ELSE {"C15/worker-thread-terminated"}, cur)
